@@ -106,6 +106,7 @@ macro_rules! cat_cfg {
                         check_decoder::<_, P>(&m, &t, &qs, kusize, prop, &what)?;
                         let it = table_from_iter::<_, P>(&m, kusize);
                         if mode == 5 {
+                            comparing(true);
                             tables_equal(&t, &it, "encoder view", "symbol_table")?;
                             tables_equal(&t, &table_from_iter::<_, P>(&&m, kusize), "encoder view", "symbol_table of reference")?;
                             let ge = m.to_generic_encoder_model();
@@ -113,6 +114,7 @@ macro_rules! cat_cfg {
                             let gd = m.to_generic_decoder_model();
                             tables_equal(&t, &table_from_iter::<_, P>(&gd, kusize), "encoder view", "generic decoder model")?;
                             check_decoder::<_, P>(&gd, &t, &qs, kusize, "C05", "to_generic_decoder_model")?;
+                            comparing(false);
                         }
                         if mode == 18 {
                             diagnostics::<_, P>(&m, &t, src, ctx, &what)?;
@@ -215,14 +217,15 @@ macro_rules! cat_cfg {
                             let m = built_or_return!(ctx, mode, b, &what);
                             let what = format!("contiguous _fast {}", what);
                             let t = contiguous_checks::<Pr, P>(&m, n, src, ctx, prop, &what, exhaustive_up_to)?;
-                            lookup_conversions!($lookup, P, m, t, src, exhaustive_up_to, kusize, mode);
+                            lookup_conversions!($lookup, P, m, t, src, ctx, exhaustive_up_to, kusize, mode, what);
                             if mode == 5 {
+                                comparing(true);
                                 // lazily evaluated model built by the same-named constructor
                                 // (the lazy decoder must also invert the *eager* encoder: data encoded
                                 // with one representation decodes with the other)
                                 let qs5 = quantiles(&t, src, exhaustive_up_to.min(1024), 16);
                                 let tl = if use_f32 {
-                                    match LazyContiguousCategoricalEntropyModel::<Pr, f32, _, P>::from_floating_point_probabilities_fast(&tab32[..], norm32) {
+                                    match other_ctor(|| LazyContiguousCategoricalEntropyModel::<Pr, f32, _, P>::from_floating_point_probabilities_fast(&tab32[..], norm32)) {
                                         Ok(l) => {
                                             check_decoder::<_, P>(&l, &t, &qs5, kusize, "C05", "lazy _fast decoder vs eager _fast encoder")?;
                                             Some(table_from_encoder::<_, P>(&l, 0..n, kusize, "C05", "lazy _fast")?)
@@ -230,7 +233,7 @@ macro_rules! cat_cfg {
                                         Err(()) => None,
                                     }
                                 } else {
-                                    match LazyContiguousCategoricalEntropyModel::<Pr, f64, _, P>::from_floating_point_probabilities_fast(&tab64[..], norm64) {
+                                    match other_ctor(|| LazyContiguousCategoricalEntropyModel::<Pr, f64, _, P>::from_floating_point_probabilities_fast(&tab64[..], norm64)) {
                                         Ok(l) => {
                                             check_decoder::<_, P>(&l, &t, &qs5, kusize, "C05", "lazy _fast decoder vs eager _fast encoder")?;
                                             Some(table_from_encoder::<_, P>(&l, 0..n, kusize, "C05", "lazy _fast")?)
@@ -244,7 +247,7 @@ macro_rules! cat_cfg {
                                 }
                                 // non-contiguous models with identity relabelling
                                 let syms: Vec<usize> = (0..n).collect();
-                                let (ne, nd) = if use_f32 {
+                                let (ne, nd) = other_ctor(|| if use_f32 {
                                     (
                                         NonContiguousCategoricalEncoderModel::<usize, Pr, P>::from_symbols_and_floating_point_probabilities_fast(syms.iter().cloned(), &tab32, norm32),
                                         NonContiguousCategoricalDecoderModel::<usize, Pr, _, P>::from_symbols_and_floating_point_probabilities_fast(syms.iter().cloned(), &tab32, norm32),
@@ -254,7 +257,7 @@ macro_rules! cat_cfg {
                                         NonContiguousCategoricalEncoderModel::<usize, Pr, P>::from_symbols_and_floating_point_probabilities_fast(syms.iter().cloned(), &tab64, norm64),
                                         NonContiguousCategoricalDecoderModel::<usize, Pr, _, P>::from_symbols_and_floating_point_probabilities_fast(syms.iter().cloned(), &tab64, norm64),
                                     )
-                                };
+                                });
                                 match (ne, nd) {
                                     (Ok(ne), Ok(nd)) => {
                                         tables_equal(&t, &table_from_encoder::<_, P>(&ne, 0..n, kusize, "C05", "non-contiguous encoder _fast")?, "contiguous _fast", "non-contiguous encoder _fast")?;
@@ -264,6 +267,7 @@ macro_rules! cat_cfg {
                                     _ => return Err(Fail::new("C05/noncontiguous_rejects_what_contiguous_accepts", what.clone())),
                                 }
                                 lookup_vs_searched!($lookup, Pr, P, t, tab32, tab64, norm32, norm64, use_f32, fast, src, exhaustive_up_to, n, kusize);
+                                comparing(false);
                             }
                         }
                         2 => {
@@ -276,10 +280,11 @@ macro_rules! cat_cfg {
                             let m = built_or_return!(ctx, mode, b, &what);
                             let what = format!("contiguous _perfect {}", what);
                             let t = contiguous_checks::<Pr, P>(&m, n, src, ctx, prop, &what, exhaustive_up_to)?;
-                            lookup_conversions!($lookup, P, m, t, src, exhaustive_up_to, kusize, mode);
+                            lookup_conversions!($lookup, P, m, t, src, ctx, exhaustive_up_to, kusize, mode, what);
                             if mode == 5 {
+                                comparing(true);
                                 let syms: Vec<usize> = (0..n).collect();
-                                let (ne, nd) = if use_f32 {
+                                let (ne, nd) = other_ctor(|| if use_f32 {
                                     (
                                         NonContiguousCategoricalEncoderModel::<usize, Pr, P>::from_symbols_and_floating_point_probabilities_perfect(syms.iter().cloned(), &tab32),
                                         NonContiguousCategoricalDecoderModel::<usize, Pr, _, P>::from_symbols_and_floating_point_probabilities_perfect(syms.iter().cloned(), &tab32),
@@ -289,7 +294,7 @@ macro_rules! cat_cfg {
                                         NonContiguousCategoricalEncoderModel::<usize, Pr, P>::from_symbols_and_floating_point_probabilities_perfect(syms.iter().cloned(), &tab64),
                                         NonContiguousCategoricalDecoderModel::<usize, Pr, _, P>::from_symbols_and_floating_point_probabilities_perfect(syms.iter().cloned(), &tab64),
                                     )
-                                };
+                                });
                                 match (ne, nd) {
                                     (Ok(ne), Ok(nd)) => {
                                         tables_equal(&t, &table_from_encoder::<_, P>(&ne, 0..n, kusize, "C05", "non-contiguous encoder _perfect")?, "contiguous _perfect", "non-contiguous encoder _perfect")?;
@@ -298,6 +303,7 @@ macro_rules! cat_cfg {
                                     _ => return Err(Fail::new("C05/noncontiguous_rejects_what_contiguous_accepts", what.clone())),
                                 }
                                 lookup_vs_searched!($lookup, Pr, P, t, tab32, tab64, norm32, norm64, use_f32, perfect, src, exhaustive_up_to, n, kusize);
+                                comparing(false);
                             }
                         }
                         3 => {
@@ -312,8 +318,10 @@ macro_rules! cat_cfg {
                                 check_decoder::<_, P>(&m, &t, &qs, kusize, prop, &what)?;
                                 check_outside::<_, P>(&m, &[n, n + 1, usize::MAX], kusize, prop, &what)?;
                                 if mode == 5 {
+                                    comparing(true);
                                     tables_equal(&t, &table_from_encoder::<_, P>(&m.as_view(), 0..n, kusize, "C05", "lazy as_view")?, "lazy model", "lazy as_view")?;
                                     tables_equal(&t, &table_from_encoder::<_, P>(&&m, 0..n, kusize, "C05", "&lazy")?, "lazy model", "reference to lazy model")?;
+                                    comparing(false);
                                 }
                             } else {
                                 let b = build(|| LazyContiguousCategoricalEntropyModel::<Pr, f64, _, P>::from_floating_point_probabilities_fast(&tab64[..], norm64));
@@ -324,7 +332,9 @@ macro_rules! cat_cfg {
                                 check_decoder::<_, P>(&m, &t, &qs, kusize, prop, &what)?;
                                 check_outside::<_, P>(&m, &[n, n + 1, usize::MAX], kusize, prop, &what)?;
                                 if mode == 5 {
+                                    comparing(true);
                                     tables_equal(&t, &table_from_encoder::<_, P>(&m.as_view(), 0..n, kusize, "C05", "lazy as_view")?, "lazy model", "lazy as_view")?;
+                                    comparing(false);
                                 }
                             }
                             if n >= 3 {
@@ -388,11 +398,16 @@ macro_rules! cat_cfg {
                                 vcheck!(listed == expect, format!("{prop}/noncontiguous_decoder_symbols"), "decoder {}: lists symbols {} but {} were supplied", what, debug_list(&listed), debug_list(&expect));
                                 let qs = quantiles(&td, src, exhaustive_up_to, 32);
                                 check_decoder::<_, P>(d, &td, &qs, ki32, prop, &format!("decoder {}", what))?;
+                                if mode == 18 {
+                                    diagnostics::<_, P>(d, &td, src, ctx, &format!("decoder {}", what))?;
+                                }
                                 if mode == 5 {
+                                    comparing(true);
                                     tables_equal(&td, &table_from_iter::<_, P>(&d.as_view(), ki32), "non-contiguous decoder", "decoder as_view")?;
                                     tables_equal(&td, &table_from_iter::<_, P>(&d.to_generic_decoder_model(), ki32), "non-contiguous decoder", "generic decoder model")?;
                                     let ge = d.to_generic_encoder_model();
                                     tables_equal(&td, &table_from_encoder::<_, P>(&ge, syms_in.iter().cloned(), ki32, "C05", "generic encoder of decoder")?, "non-contiguous decoder", "generic encoder model")?;
+                                    comparing(false);
                                 }
                             } else if let Built::Panicked(p) = &bd {
                                 if !hostile {
@@ -411,7 +426,9 @@ macro_rules! cat_cfg {
                                 // encoder-only hash table versus decoder-only table (C03: same-named constructors agree; C05 statement)
                                 let td = table_from_iter::<_, P>(d, ki32);
                                 if mode == 5 || mode == 3 {
+                                    comparing(true);
                                     tables_equal(&te, &td, "non-contiguous encoder", "non-contiguous decoder").map_err(|f| Fail::new(f.sig.replace("C05", prop), f.detail))?;
+                                    comparing(false);
                                 }
                             }
                             if n >= 3 {
@@ -455,7 +472,7 @@ macro_rules! cat_cfg {
                             }
                             let m = built_or_return!(ctx, mode, b, &what);
                             let t = contiguous_checks::<Pr, P>(&m, n, src, ctx, prop, &format!("contiguous {}", what), exhaustive_up_to)?;
-                            lookup_conversions!($lookup, P, m, t, src, exhaustive_up_to, kusize, mode);
+                            lookup_conversions!($lookup, P, m, t, src, ctx, exhaustive_up_to, kusize, mode, what);
                             if !hostile {
                                 let exp: Vec<u64> = full.clone();
                                 let got: Vec<u64> = t.rows.iter().map(|r| r.2).collect();
@@ -530,6 +547,7 @@ where
         ctx.nontrivial();
     }
     if ctx.param == 5 {
+        comparing(true);
         tables_equal(&t, &table_from_iter::<_, P>(m, kusize), "encoder view", "symbol_table")?;
         let v = m.as_view();
         tables_equal(&t, &table_from_encoder::<_, P>(&v, 0..n, kusize, "C05", "as_view")?, "encoder view", "as_view")?;
@@ -540,6 +558,25 @@ where
         let gd = m.to_generic_decoder_model();
         tables_equal(&t, &table_from_iter::<_, P>(&gd, kusize), "encoder view", "generic decoder model")?;
         check_decoder::<_, P>(&gd, &t, &qs, kusize, "C05", "to_generic_decoder_model")?;
+        let ge2 = NonContiguousCategoricalEncoderModel::<usize, Pr, P>::from_iterable_entropy_model(m);
+        tables_equal(&t, &table_from_encoder::<_, P>(&ge2, 0..n, kusize, "C05", "NonContiguousCategoricalEncoderModel::from_iterable_entropy_model")?, "encoder view", "encoder from_iterable_entropy_model")?;
+        let ge3: NonContiguousCategoricalEncoderModel<usize, Pr, P> = m.into();
+        tables_equal(&t, &table_from_encoder::<_, P>(&ge3, 0..n, kusize, "C05", "NonContiguousCategoricalEncoderModel::from(&model)")?, "encoder view", "encoder From<&model>")?;
+        if ge2.support_size() != n || ge.support_size() != n {
+            return Err(Fail::new("C05/generic_encoder_support_size", format!("{what}: support_size {} / {} for {} symbols", ge.support_size(), ge2.support_size(), n)));
+        }
+        let gd2 = NonContiguousCategoricalDecoderModel::<usize, Pr, Vec<(Pr, usize)>, P>::from_iterable_entropy_model(m);
+        tables_equal(&t, &table_from_iter::<_, P>(&gd2, kusize), "encoder view", "decoder from_iterable_entropy_model")?;
+        check_decoder::<_, P>(&gd2, &t, &qs, kusize, "C05", "NonContiguousCategoricalDecoderModel::from_iterable_entropy_model")?;
+        let gd3: NonContiguousCategoricalDecoderModel<usize, Pr, Vec<(Pr, usize)>, P> = m.into();
+        tables_equal(&t, &table_from_iter::<_, P>(&gd3, kusize), "encoder view", "decoder From<&model>")?;
+        if gd.support_size() != n {
+            return Err(Fail::new("C05/generic_decoder_support_size", format!("{what}: support_size {} for {} symbols", gd.support_size(), n)));
+        }
+        // conversions of the converted model (its trait methods are overridden)
+        tables_equal(&t, &table_from_iter::<_, P>(&gd.to_generic_decoder_model(), kusize), "encoder view", "generic decoder of generic decoder")?;
+        tables_equal(&t, &table_from_encoder::<_, P>(&gd.to_generic_encoder_model(), 0..n, kusize, "C05", "generic encoder of generic decoder")?, "encoder view", "generic encoder of generic decoder")?;
+        tables_equal(&t, &table_from_iter::<_, P>(&gd.as_view(), kusize), "encoder view", "view of generic decoder")?;
         // exact after scaling
         let whole = (1u64 << P) as f64;
         for (i, (s, c, p)) in m.floating_point_symbol_table::<f64>().enumerate() {
@@ -549,9 +586,23 @@ where
             }
         }
         ctx.label("representations_compared");
+        comparing(false);
     }
     if ctx.param == 18 {
         diagnostics::<_, P>(m, &t, src, ctx, what)?;
+        // the non-contiguous decoder model overrides entropy_base2 and floating_point_symbol_table; the
+        // encoder model has an inherent entropy_base2
+        let gd = m.to_generic_decoder_model();
+        diagnostics::<_, P>(&gd, &t, src, ctx, &format!("generic decoder model of {what}"))?;
+        let ge = m.to_generic_encoder_model();
+        comparing(true);
+        let total = t.total() as f64;
+        let h: f64 = -t.rows.iter().map(|r| r.2 as f64 / total).map(|x| x * x.log2()).sum::<f64>();
+        let got = ge.entropy_base2::<f64>();
+        comparing(false);
+        if !((got - h).abs() <= 1e-9 * h.abs().max(1.0) + 1e-12 * n as f64) {
+            return Err(Fail::new("C18/entropy_base2", format!("generic encoder model of {what}: entropy_base2 = {got}, textbook {h}")));
+        }
     }
     Ok(t)
 }
@@ -560,11 +611,12 @@ where
 /// fixed-point probabilities taken from the encoder view.
 pub fn diagnostics<'m, M, const P: usize>(m: &'m M, t: &Table, src: &mut Src, ctx: &mut Ctx, what: &str) -> Result<(), Fail>
 where
-    M: IterableEntropyModel<'m, P> + EncoderModel<P>,
+    M: IterableEntropyModel<'m, P>,
     M::Probability: Into<f64>,
     f64: From<M::Probability>,
     M::Symbol: Clone,
 {
+    comparing(true);
     let total = t.total() as f64;
     let q: Vec<f64> = t.rows.iter().map(|r| r.2 as f64 / total).collect();
     let n = q.len();
@@ -621,6 +673,7 @@ where
             return Err(Fail::new("C18/floating_point_symbol_table", format!("{what}: row {i}: ({c}, {pr}) vs exact ({}, {})", r.1 as f64 / total, r.2 as f64 / total)));
         }
     }
+    comparing(false);
     ctx.label("diagnostics_checked");
     if n >= 3 {
         ctx.nontrivial();
@@ -648,11 +701,16 @@ macro_rules! lookup_family {
                 vcheck!(t.rows.len() == $n, format!("{}/lookup_support_size", $prop), "{}: lists {} symbols for {} entries", what, t.rows.len(), $n);
                 let qs = quantiles(&t, $src, $ex, 32);
                 check_decoder::<_, $P>(&m, &t, &qs, $kusize, $prop, &what)?;
+                if $mode == 18 {
+                    diagnostics::<_, $P>(&m, &t, $src, $ctx, &what)?;
+                }
                 if $mode == 5 {
+                    comparing(true);
                     tables_equal(&t, &table_from_iter::<_, $P>(&m.as_view(), $kusize), "lookup model", "lookup as_view")?;
                     let c = m.as_contiguous_categorical();
                     tables_equal(&t, &table_from_encoder::<_, $P>(&c, 0..$n, $kusize, "C05", "as_contiguous_categorical")?, "lookup model", "as_contiguous_categorical")?;
                     check_decoder::<_, $P>(&c, &t, &qs, $kusize, "C05", "as_contiguous_categorical decoder")?;
+                    comparing(false);
                 }
             }
             _ => {
@@ -690,11 +748,16 @@ macro_rules! lookup_family {
                 vcheck!(listed == expect, format!("{}/lookup_symbols", $prop), "{}: lists symbols {} but {} were supplied", what, debug_list(&listed), debug_list(&expect));
                 let qs = quantiles(&t, $src, $ex, 32);
                 check_decoder::<_, $P>(&m, &t, &qs, ki32, $prop, &what)?;
+                if $mode == 18 {
+                    diagnostics::<_, $P>(&m, &t, $src, $ctx, &what)?;
+                }
                 if $mode == 5 {
+                    comparing(true);
                     tables_equal(&t, &table_from_iter::<_, $P>(&m.as_view(), ki32), "lookup model", "lookup as_view")?;
                     let c = m.as_non_contiguous_categorical();
                     tables_equal(&t, &table_from_iter::<_, $P>(&c, ki32), "lookup model", "as_non_contiguous_categorical")?;
                     check_decoder::<_, $P>(&c, &t, &qs, ki32, "C05", "as_non_contiguous_categorical decoder")?;
+                    comparing(false);
                 }
             }
         }
@@ -712,7 +775,7 @@ macro_rules! lookup_family {
 /// C05: lookup `_fast` / `_perfect` and conversions versus the searched model `t`
 macro_rules! lookup_vs_searched {
     (true, $Pr:ty, $P:expr, $t:expr, $tab32:expr, $tab64:expr, $norm32:expr, $norm64:expr, $use_f32:expr, $kind:ident, $src:expr, $ex:expr, $n:expr, $kusize:expr) => {{
-        let l = lookup_ctor!($kind, $Pr, $P, $tab32, $tab64, $norm32, $norm64, $use_f32);
+        let l = other_ctor(|| lookup_ctor!($kind, $Pr, $P, $tab32, $tab64, $norm32, $norm64, $use_f32));
         match l {
             Ok(l) => {
                 tables_equal(&$t, &table_from_iter::<_, $P>(&l, $kusize), concat!("searched _", stringify!($kind)), concat!("lookup _", stringify!($kind)))?;
@@ -725,22 +788,54 @@ macro_rules! lookup_vs_searched {
     (false, $Pr:ty, $P:expr, $t:expr, $tab32:expr, $tab64:expr, $norm32:expr, $norm64:expr, $use_f32:expr, $kind:ident, $src:expr, $ex:expr, $n:expr, $kusize:expr) => {{}};
 }
 
-/// C05: conversions of a searched contiguous model into lookup models
+/// C05: conversions of a searched contiguous model into lookup models (and back);
+/// C18: diagnostics of the converted models
 macro_rules! lookup_conversions {
-    (true, $P:expr, $m:expr, $t:expr, $src:expr, $ex:expr, $kusize:expr, $mode:expr) => {{
+    (true, $P:expr, $m:expr, $t:expr, $src:expr, $ctx:expr, $ex:expr, $kusize:expr, $mode:expr, $what:expr) => {{
         if $mode == 5 {
+            comparing(true);
             let qs = quantiles(&$t, $src, $ex, 32);
+            let n = $t.rows.len();
             let l = $m.to_lookup_decoder_model();
             tables_equal(&$t, &table_from_iter::<_, $P>(&l, $kusize), "searched model", "to_lookup_decoder_model")?;
             check_decoder::<_, $P>(&l, &$t, &qs, $kusize, "C05", "to_lookup_decoder_model")?;
+            let l2: ContiguousLookupDecoderModel<_, Vec<_>, Box<[_]>, $P> = (&$m).into();
+            tables_equal(&$t, &table_from_iter::<_, $P>(&l2, $kusize), "searched model", "ContiguousLookupDecoderModel::from(&model)")?;
+            check_decoder::<_, $P>(&l2, &$t, &qs, $kusize, "C05", "ContiguousLookupDecoderModel::from(&model)")?;
             let g = $m.to_generic_lookup_decoder_model();
             tables_equal(&$t, &table_from_iter::<_, $P>(&g, $kusize), "searched model", "to_generic_lookup_decoder_model")?;
             check_decoder::<_, $P>(&g, &$t, &qs, $kusize, "C05", "to_generic_lookup_decoder_model")?;
+            let g2 = NonContiguousLookupDecoderModel::<usize, _, _, _, $P>::from_iterable_entropy_model(&$m);
+            tables_equal(&$t, &table_from_iter::<_, $P>(&g2, $kusize), "searched model", "NonContiguousLookupDecoderModel::from_iterable_entropy_model")?;
+            check_decoder::<_, $P>(&g2, &$t, &qs, $kusize, "C05", "NonContiguousLookupDecoderModel::from_iterable_entropy_model")?;
             let back = l.as_contiguous_categorical();
-            tables_equal(&$t, &table_from_encoder::<_, $P>(&back, 0..$t.rows.len(), $kusize, "C05", "lookup.as_contiguous_categorical")?, "searched model", "lookup as_contiguous_categorical")?;
+            tables_equal(&$t, &table_from_encoder::<_, $P>(&back, 0..n, $kusize, "C05", "lookup.as_contiguous_categorical")?, "searched model", "lookup as_contiguous_categorical")?;
+            let gb = g.as_non_contiguous_categorical();
+            tables_equal(&$t, &table_from_iter::<_, $P>(&gb, $kusize), "searched model", "generic lookup as_non_contiguous_categorical")?;
+            check_decoder::<_, $P>(&gb, &$t, &qs, $kusize, "C05", "generic lookup as_non_contiguous_categorical")?;
+            // the searched non-contiguous decoder converted to its lookup form
+            let nd = $m.to_generic_decoder_model();
+            let ndl = nd.to_lookup_decoder_model();
+            tables_equal(&$t, &table_from_iter::<_, $P>(&ndl, $kusize), "searched model", "generic decoder to_lookup_decoder_model")?;
+            check_decoder::<_, $P>(&ndl, &$t, &qs, $kusize, "C05", "generic decoder to_lookup_decoder_model")?;
+            let ndg = nd.to_generic_lookup_decoder_model();
+            tables_equal(&$t, &table_from_iter::<_, $P>(&ndg, $kusize), "searched model", "generic decoder to_generic_lookup_decoder_model")?;
+            // consuming conversions
+            let owned = l2.into_contiguous_categorical();
+            tables_equal(&$t, &table_from_encoder::<_, $P>(&owned, 0..n, $kusize, "C05", "lookup.into_contiguous_categorical")?, "searched model", "lookup into_contiguous_categorical")?;
+            let owned = g2.into_non_contiguous_categorical();
+            tables_equal(&$t, &table_from_iter::<_, $P>(&owned, $kusize), "searched model", "generic lookup into_non_contiguous_categorical")?;
+            comparing(false);
+            $ctx.label("lookup_conversions_compared");
+        }
+        if $mode == 18 {
+            let l = $m.to_lookup_decoder_model();
+            diagnostics::<_, $P>(&l, &$t, $src, $ctx, &format!("to_lookup_decoder_model of {}", $what))?;
+            let g = $m.to_generic_lookup_decoder_model();
+            diagnostics::<_, $P>(&g, &$t, $src, $ctx, &format!("to_generic_lookup_decoder_model of {}", $what))?;
         }
     }};
-    (false, $P:expr, $m:expr, $t:expr, $src:expr, $ex:expr, $kusize:expr, $mode:expr) => {{}};
+    (false, $P:expr, $m:expr, $t:expr, $src:expr, $ctx:expr, $ex:expr, $kusize:expr, $mode:expr, $what:expr) => {{}};
 }
 
 macro_rules! lookup_ctor {
@@ -793,9 +888,16 @@ cat_cfg!(c_u32_32, "u32/32", u32, 32, lookup = false);
 pub fn categorical(src: &mut Src, ctx: &mut Ctx) -> CaseResult {
     let mode = ctx.param;
     let r = if mode == 5 || mode == 18 {
+        comparing(false);
         match vengine::catch(|| categorical_inner(src, ctx)) {
             Ok(r) => r,
             Err(p) if p.origin == vengine::PanicOrigin::Harness => panic!("harness bug: {}", p.render()),
+            Err(p) if is_comparing() => {
+                // the model was built and validated; the panic happened inside a conversion, a view or an
+                // accessor that the running property is about
+                comparing(false);
+                return Err(Fail::new(format!("C{:02}/panic_in_conversion_or_accessor/{}", mode, p.signature()), p.render()));
+            }
             Err(_) => {
                 ctx.discard("foreign:panic_in_model_code");
                 return Ok(());
